@@ -128,6 +128,16 @@ CLAIMED = {
         "note": _NOTE + " A minimal visitor supplies catch_errors/show_error; building OverloadedSignature from @overload definitions is outside the claim.",
         "technique": "CrossHair symbolic execution + z3; symbolic preorder as environment; 40-line reference resolver",
     },
+    "C07": {
+        "design_ref": "DESIGN.md section 5 C07",
+        "text": ("H07a: Signature.can_assign / CallableValue.can_assign decide acceptance of (expected, actual) signature pairs over all "
+                 "parameter kinds, defaults and names; for every call shape (symbolic positional count and keyword presence) accepted "
+                 "and expected-binds implies actual-binds, with CPython itself as binder (generated defs are really called). H07b: "
+                 "typed parameters/returns are atoms under a symbolic preorder; accepted implies contravariant parameters along the "
+                 "real binding and a covariant return."),
+        "note": _NOTE + " Entry points that fetch signatures from function objects / protocols / overrides (visitor) are outside the claim.",
+        "technique": "CrossHair symbolic execution + z3; differential against real CPython calls; symbolic preorder",
+    },
 }
 
 _PENDING = "harness not landed yet in this commit (build in progress; see DESIGN.md section 9)"
